@@ -487,7 +487,9 @@ def run(tier, seed, workers):
                      ' ∪ {x in SIGMA12^%d : rank(x) %% 3 == %d}' % (extra, seed % 3) if extra else '',
                      out['evaluations'], seed % 10, len(CONFIGS), len(families()), LIMIT_S),
         'rule': 'exhaustive enumeration of the alphabets + fixed lists; a case is non-trivial when its parse (Html token '
-                'set) is not empty and not a single paragraph of plain text',
+                'set) is not empty and not a single paragraph of plain text; renderer objects are reused within a work unit '
+                'and rebuilt after any exception, a failing case is re-run with nothing shared; pygments.lexers.guess_lexer '
+                '(trusted library, pure) is memoised',
         'exhaustive': True, 'admitted_refusals': sum(r['admitted'] for r in res),
         'failures_total': sum(r['failures_total'] for r in res),
         'failures_by_class': dict(sorted(((k, v) for k, v in by_class.items() if ':' not in k), key=lambda kv: -kv[1])),
